@@ -78,6 +78,7 @@ def plan(part, prop, tier, vseed, idx, avoid):
     eng = get_engine(part["engine"])
     rs = kernel.run_seed(vseed, prop, part["engine"] + ":" + part.get("mode", ""), idx)
     S = Streams(rs)
+    S.index = idx
     script = eng.plan(S, prop, part.get("mode", ""), tier, avoid)
     script["engine"] = part["engine"]
     script["prop"] = prop
@@ -374,7 +375,13 @@ def check(prop, tier, spec, vseed, jobs, build_info, log=print):
             info["mode"] = part.get("mode", "")
             info["runs"] = M["runs"]
             infos.append(info)
-            for b in info["crashed_batches"]:
+            # a worker that dies (signal, or the per-run watchdog on a hang) leaves a batch unfinished: the
+            # lowest such batch is searched run by run for the culprit; one located crash/hang is enough,
+            # the other unfinished batches are only counted (each hang costs a full watchdog period)
+            for bi, b in enumerate(info["crashed_batches"]):
+                if bi > 0 and M["viol_count"] > 0:
+                    info["crashed_batches_not_searched"] = len(info["crashed_batches"]) - bi
+                    break
                 v = locate_crash(part, prop, tier, vseed, b, session, open_entries)
                 if v is None:
                     harness_errors.append("worker died in batch %r of %s but no single run "
